@@ -7,7 +7,6 @@ import (
 	"strings"
 
 	"go.dedis.ch/kyber/v4"
-	"go.dedis.ch/kyber/v4/group/p256"
 
 	"verif/internal/gen"
 	"verif/internal/groups"
@@ -228,9 +227,8 @@ func c04Structured(g *groups.G, rng *gen.Rng) []c04in {
 		add("p256/x=0,y=1", append([]byte{4}, append(beBytes(big.NewInt(0), 32), beBytes(big.NewInt(1), 32)...)...))
 		add("p256/x=p,y=p", append([]byte{4}, append(beBytes(c.P, 32), beBytes(c.P, 32)...)...))
 		add("p256/x=ff,y=ff", append([]byte{4}, bytes.Repeat([]byte{0xff}, 64)...))
-	case name == "qr512":
-		grp := g.Grp.(*p256.QrSuite)
-		P, Q := grp.P, grp.Q
+	case name == "qr512" || name == "residue-r6":
+		P, Q := groups.ResiduePQ(g)
 		n := g.Grp.PointLen()
 		add("qr/zero", make([]byte, n))
 		add("qr/P", beBytes(P, n))
@@ -244,6 +242,13 @@ func c04Structured(g *groups.G, rng *gen.Rng) []c04in {
 			}
 			add(cls, beBytes(x, n))
 			add("qr/residue+P-overlong", append([]byte{1}, beBytes(new(big.Int).Mul(x, x), n)...))
+			// a square: always a quadratic residue, in the order-Q subgroup only when the cofactor is 2
+			sq := new(big.Int).Exp(x, big.NewInt(2), P)
+			scls := "qr/square-outside-subgroup"
+			if new(big.Int).Exp(sq, Q, P).Cmp(big.NewInt(1)) == 0 {
+				scls = "qr/square-in-subgroup"
+			}
+			add(scls, beBytes(sq, n))
 		}
 	case strings.HasPrefix(name, "bn256.G1") || strings.HasPrefix(name, "bn254.G1"):
 		c := ref.BN256G1
@@ -377,13 +382,13 @@ func c04Member(g *groups.G, enc []byte, twistB map[string]ref.F2) (checked, ok b
 			return true, true, ""
 		}
 		return true, ref.P256.OnCurve(x, y), "curve equation"
-	case name == "qr512":
-		grp := g.Grp.(*p256.QrSuite)
+	case name == "qr512" || name == "residue-r6":
+		P, Q := groups.ResiduePQ(g)
 		v := new(big.Int).SetBytes(enc)
-		if v.Sign() <= 0 || v.Cmp(grp.P) >= 0 {
+		if v.Sign() <= 0 || v.Cmp(P) >= 0 {
 			return true, false, "range"
 		}
-		return true, new(big.Int).Exp(v, grp.Q, grp.P).Cmp(big.NewInt(1)) == 0, "v^Q != 1"
+		return true, new(big.Int).Exp(v, Q, P).Cmp(big.NewInt(1)) == 0, "v^Q != 1"
 	case name == "bn256.G1" || name == "bn254.G1":
 		c := ref.BN256G1
 		if name == "bn254.G1" {
@@ -423,6 +428,8 @@ func c04Member(g *groups.G, enc []byte, twistB map[string]ref.F2) (checked, ok b
 
 func c04Decoders(r *mon.R, lite bool) {
 	all := groups.All()
+	// extra configuration: a residue group with cofactor 6 (membership is not implied by quadratic residuosity)
+	all = append(all, groups.ResidueR6())
 	gs := groups.Select(all, *flagGroups)
 	// twist constants derived from the published generators
 	twistB := map[string]ref.F2{}
@@ -629,7 +636,7 @@ func c04PromisesSubgroup(g *groups.G) bool {
 	switch {
 	case g.Kind == "GT":
 		return false
-	case g.Name == "qr512" || g.Name == "p256" || g.Name == "bn256.G1" || g.Name == "bn254.G1":
+	case g.Name == "qr512" || g.Name == "residue-r6" || g.Name == "p256" || g.Name == "bn256.G1" || g.Name == "bn254.G1":
 		return true // prime-order curves / residue group: on-curve == in group
 	case g.Name == "bn254.G2":
 		return true
